@@ -325,13 +325,15 @@ def _range_lookup(chk: Check, f, key: str, by_addr: bool) -> None:
         member: Set[int] = set()
         for n, inf in cfg.info.items():
             if inf.kind == "test" and isinstance(inf.ast, ast.Compare) and len(inf.ast.ops) == 1 and \
-                    isinstance(inf.ast.ops[0], ast.In) and attr_path(inf.ast.comparators[0]) and \
+                    isinstance(inf.ast.ops[0], (ast.In, ast.NotIn)) and attr_path(inf.ast.comparators[0]) and \
                     attr_path(inf.ast.comparators[0])[0] in rng_names:
                 l = _lin(inf.ast.left, al)
                 want = {"%s.address" % me: 1, i: 1} if by_addr else {i: 1}
                 if l is not None and l[1] == 0 and l[0] == want:
                     for bnode in cfg.g.successors(n):
-                        if cfg.info[bnode].kind == "branch" and cfg.info[bnode].value:
+                        # the outcome "is a member", whichever way round the test is written
+                        if cfg.info[bnode].kind == "branch" and \
+                                cfg.info[bnode].value == isinstance(inf.ast.ops[0], ast.In):
                             member.add(bnode)
         head = cfg.by_ast[id(lp)]
         ok = bool(member) and cfg.path_avoiding(head, yn, member) is None
